@@ -57,9 +57,10 @@ Definition clamp64 (z:Z) : Z := Z.max (- 2 ^ 63) (Z.min (2 ^ 63 - 1) z).
 Definition wrap32 (z:Z) : Z := (z + 2 ^ 31) mod 2 ^ 32 - 2 ^ 31.
 Definition strtol (s:text) : Z :=
   match skipb isspace s with
-  | 45 :: t => clamp64 (- digits_val 0 t)
-  | 43 :: t => clamp64 (digits_val 0 t)
-  | s1 => clamp64 (digits_val 0 s1)
+  | c :: t => if c =? 45 then clamp64 (- digits_val 0 t)
+              else if c =? 43 then clamp64 (digits_val 0 t)
+              else clamp64 (digits_val 0 (c :: t))
+  | [] => 0
   end.
 Definition atol (s:text) : Z := strtol s.
 Definition atoi (s:text) : Z := wrap32 (strtol s).
@@ -279,7 +280,7 @@ Definition parse_val (ty:vtype) (tok:text) : dvalue :=
 Record lstate := mkL { l_ed : Z; l_seq : list item }.      (* l_seq: most recent first *)
 Definition load_line (T:tables) (st:lstate) (line0:text) : lstate :=
   let line := cut0 line0 in
-  if starts [35] line || starts [42] line then st                                   (* '#', '*' *)
+  if (match line with c :: _ => (c =? 35) || (c =? 42) | [] => false end) then st      (* '#', '*' *)
   else if starts s_LOCAL_TABLEB line || starts s_MASTER_TABLEB line
        || starts s_LOCAL_TABLED line || starts s_MASTER_TABLED line then st    (* table files: outside the model *)
   else if starts s_BUFR_EDITION line then
@@ -379,3 +380,46 @@ Definition quant (scale ref:Z) (m e:Z) : Z :=
   let '(a, b) := scale10 n d (- scale) in
   let q := (2 * a + b) / (2 * b) in
   (if m <? 0 then - q else q) - ref.
+
+(* ------------------------------------------------------------------ predicates used in the statements *)
+(* a template object exists: bufr_create_template / bufr_finalize_template accepted the descriptor list *)
+Definition wf_template (fuel:nat) (T:tables) (t:template) : Prop :=
+  finalize_ok fuel T (descs t) = true /\ 0 <= t_ed t < 2 ^ 31.
+(* the default has the value type the library itself gives the element (bufr_encoding_to_valtype), as in Examples/encode_freeform_tmpl.c *)
+Definition natural_value (ty:vtype) (v:dvalue) : Prop :=
+  match ty, v with
+  | TInt32, DInt32 z => - 2 ^ 31 <= z < 2 ^ 31
+  | TInt64, DInt64 z => - 2 ^ 63 <= z < 2 ^ 63
+  | TFlt64, DFlt m e => norm m e = (m, e)
+  | TString n, DStr s => Z.of_nat (length s) = n /\ forallb (fun c => (0 <? c) && (c <? 256)) s = true
+  | _, _ => False
+  end.
+Definition natural (T:tables) (t:template) : Prop :=
+  Forall (fun it => Forall (natural_value (vtype_of T (i_desc it))) (i_vals it)) (t_items t).
+(* what the text format of the current code carries: at most one default per descriptor; an integer other than -1;
+   a FLT64 that its own printed form (%f trimmed / %.14E) read by strtof gives back.  No character default qualifies. *)
+Definition flt_carried (m e:Z) : Prop := parse_val TFlt64 (print_flt m e) = DFlt m e.
+Definition carried_value (ty:vtype) (v:dvalue) : Prop :=
+  match ty, v with
+  | TInt32, DInt32 z => z <> -1 /\ - 2 ^ 31 <= z < 2 ^ 31
+  | TInt64, DInt64 z => z <> -1 /\ - 2 ^ 63 <= z < 2 ^ 63
+  | TFlt64, DFlt m e => flt_carried m e
+  | _, _ => False
+  end.
+Definition carried_item (T:tables) (it:item) : Prop :=
+  match i_vals it with
+  | [] => True
+  | [v] => carried_value (vtype_of T (i_desc it)) v
+  | _ => False
+  end.
+Definition carried (T:tables) (t:template) : Prop := Forall (carried_item T) (t_items t).
+(* strings as C can hold them *)
+Definition no_nul_value (v:dvalue) : Prop := match v with DStr s => forallb (fun c => negb (c =? 0)) s = true | _ => True end.
+Definition no_nul (t:template) : Prop := Forall (fun it => Forall no_nul_value (i_vals it)) (t_items t).
+(* two defaults of an element are the same when they stand for the same raw value under the element's Table B encoding
+   (FLT64: the same quantised integer), and are identical otherwise *)
+Definition value_equiv (T:tables) (d:Z) (v v':dvalue) : Prop :=
+  match v, v', lookupB T d with
+  | DFlt m e, DFlt m' e', Some b => quant (b_scale b) (b_ref b) m e = quant (b_scale b) (b_ref b) m' e'
+  | _, _, _ => v = v'
+  end.
